@@ -1129,7 +1129,7 @@ def generate(unit, template_path, canary=False, extra_fns=(), drop_hints=()):
                     segs = [x.strip() for x in ln.strip()[len("//@fields "):].split(" | ")]
                     fsrc = get_src(segs[0])
                     fa, fe = fsrc.find_item("struct", segs[1].split()[-1])
-                    ftext = re.sub(r"\s+", "", strip_attrs_and_docs(fsrc.text[fa:fe]))
+                    ftext = re.sub(r"\s+", "", re.sub(r"//[^\n]*", "", strip_attrs_and_docs(fsrc.text[fa:fe])))
                     for fld in segs[2].split(";"):
                         if not fld.strip():
                             continue
@@ -1375,6 +1375,8 @@ def generate(unit, template_path, canary=False, extra_fns=(), drop_hints=()):
                     g.rewrites.append({"rule": rule, "where": where, "before": "/" + frm + "/", "after": to, "count": cnt})
                     body = new_body
             body = rule_R4(body, g.rewrites, where)
+            if re.search(r"\bcontinue\b", mask_rust(body)):
+                body = rule_R15(body, g.rewrites, where)     # before R8: a guard-continue whose guard is a let-chain becomes a chain WITH else
             if "&&" in body and re.search(r"\bif\b[^;]*?\blet\b", mask_rust(body), re.S):
                 body = rule_R8(body, g.rewrites, where)
             if re.search(r"\bmatch\b", mask_rust(body)) and re.search(r"\bif\b[^{};]*=>", mask_rust(body)):
@@ -1391,8 +1393,6 @@ def generate(unit, template_path, canary=False, extra_fns=(), drop_hints=()):
                 newsig = re.sub(r"(?<=[(,])(\s*)mut\s+" + pn + r"\s*:", r"\1" + pn + ":", newsig, count=1)
                 body = "{ let mut " + pn + " = " + pn + ";" + body[1:]
                 g.rewrites.append({"rule": "R14", "where": where, "before": f"mut {pn}: ..", "after": f"{pn}: .. + `let mut {pn} = {pn};`"})
-            if re.search(r"\bcontinue\b", mask_rust(body)):
-                body = rule_R15(body, g.rewrites, where)
             if re.search(r"\(\s*mut\s+self\b", newsig):
                 # R14: `fn f(mut self, ..) { B }` -> `fn f(self, ..) { let mut self_ = self; B[self := self_] }` (alpha-renaming
                 # of a by-value binding; Verus has no `mut self`)
